@@ -937,6 +937,15 @@ def run(ctx: common.Ctx) -> None:
             ctx.inconc(f"{s}: sub-monitor below its floor (accepting {d['both_accept']}/{fa}, rejecting {d['both_reject']}/{fr})")
             ctx.floor_nontrivial = 10 ** 9
     ctx.extra["sub_monitors"] = summary
+    # one written-out witness per mechanism key before repeats of the same key
+    head: list[dict[str, Any]] = []
+    tail: list[dict[str, Any]] = []
+    seen_keys: set[str] = set()
+    for v in ctx.violations:
+        (tail if v["key"] in seen_keys else head).append(v)
+        seen_keys.add(v["key"])
+    ctx.violations = head + tail
+    ctx.max_reported = max(ctx.max_reported, min(len(head), 60))
     if only != set(SUBS):
         ctx.assumptions.append(f"PARTIAL RUN: only sub-monitors {sorted(only)} (VERIF_C12_ONLY)")
     tot_floor = {"quick": (358000, 1022000), "thorough": (2630000, 6532000)}[ctx.tier]
